@@ -391,6 +391,10 @@ def binary_ops():
                                  [-2.0 * t for t in fv], flip[curv[n1]]),
                                 ('matrix([3.0]) * f', matrix([3.0]) * f,
                                  [3.0 * t for t in fv], curv[n1]),
+                                ('f / 4', f / 4, [t / 4 for t in fv],
+                                 curv[n1]),
+                                ('f / matrix([-0.5])', f / matrix([-0.5]),
+                                 [t / -0.5 for t in fv], flip[curv[n1]]),
                                 ('f * 0', f * 0, [0.0 for t in fv], 'a'),
                                 ('0.0 * f', 0.0 * f, [0.0 for t in fv], 'a')):
             count['binary'] = count.get('binary', 0) + 1
